@@ -36,11 +36,13 @@ import (
 	iresolver "google.golang.org/grpc/internal/resolver"
 	"google.golang.org/grpc/internal/verif/seqx"
 	"google.golang.org/grpc/internal/verif/vk"
+	"google.golang.org/grpc/internal/wrr"
 	"google.golang.org/grpc/internal/xds/balancer/clustermanager"
 	"google.golang.org/grpc/internal/xds/bootstrap"
 	"google.golang.org/grpc/internal/xds/clients/lrsclient"
 	gxdsclient "google.golang.org/grpc/internal/xds/clients/xdsclient"
 	"google.golang.org/grpc/internal/xds/httpfilter"
+	rinternal "google.golang.org/grpc/internal/xds/resolver/internal"
 	"google.golang.org/grpc/internal/xds/xdsclient/xdsresource"
 	"google.golang.org/grpc/internal/xds/xdsclient/xdsresource/version"
 	"google.golang.org/grpc/resolver"
@@ -270,7 +272,8 @@ type c51World struct {
 	client   *c51Client
 	r        *xdsResolver
 	cc       *c51CC
-	routes   []string  // ledger: clusters of the route configuration delivered last (nil before the first)
+	routes   []string  // ledger: SET of clusters named by the route configuration delivered last (nil before the first)
+	routeName string   // which route configuration that was (several name the same cluster set)
 	haveCfg  bool
 	rpcs     []*c51RPC // ledger: selected, not yet committed (selection order)
 	nextID   int
@@ -318,29 +321,56 @@ func (w *c51World) close() {
 	synctest.Wait()
 }
 
+// c51Route is one route of the scripted route configuration: RPCs whose method
+// starts with Prefix go to the weighted clusters listed (all weight 1; a
+// cluster may be listed more than once, and several routes may name the same
+// cluster).
+type c51Route struct {
+	Prefix   string
+	Clusters []string
+}
+
 // deliver sends a Listener resource whose inline route configuration routes
-// /A/... to cluster A and /B/... to cluster B, for the clusters in set.
+// /X/... to cluster X, for the clusters in set (one route per cluster).
 func (w *c51World) deliver(set []string) {
+	var routes []c51Route
+	for _, c := range set {
+		routes = append(routes, c51Route{Prefix: "/" + c + "/", Clusters: []string{c}})
+	}
+	w.deliverRoutes(fmt.Sprint(set), routes)
+}
+
+// deliverRoutes sends a Listener resource with the given inline routes. The
+// ledger keeps the SET of clusters the route configuration names.
+func (w *c51World) deliverRoutes(name string, routes []c51Route) {
 	lw := w.client.listenerWatcher()
 	if lw == nil {
 		w.fail("harness", "no listener watch")
 		return
 	}
 	vh := &xdsresource.VirtualHost{Domains: []string{"*"}}
-	for _, c := range set {
-		prefix := "/" + c + "/"
-		vh.Routes = append(vh.Routes, &xdsresource.Route{
-			Prefix:           &prefix,
-			ActionType:       xdsresource.RouteActionRoute,
-			WeightedClusters: []xdsresource.WeightedCluster{{Name: c, Weight: 1}},
-		})
+	seen := map[string]bool{}
+	set := []string{}
+	for _, rt := range routes {
+		prefix := rt.Prefix
+		xr := &xdsresource.Route{Prefix: &prefix, ActionType: xdsresource.RouteActionRoute}
+		for _, c := range rt.Clusters {
+			xr.WeightedClusters = append(xr.WeightedClusters, xdsresource.WeightedCluster{Name: c, Weight: 1})
+			if !seen[c] {
+				seen[c] = true
+				set = append(set, c)
+			}
+		}
+		vh.Routes = append(vh.Routes, xr)
 	}
+	sort.Strings(set)
 	lu := xdsresource.ListenerUpdate{APIListener: &xdsresource.HTTPConnectionManagerConfig{
 		InlineRouteConfig: &xdsresource.RouteConfigUpdate{VirtualHosts: []*xdsresource.VirtualHost{vh}},
 		HTTPFilters:       []xdsresource.HTTPFilter{{Name: "verif", Filter: c51Filter{w}}},
 	}}
 	w.mu.Lock()
-	w.routes = append([]string(nil), set...)
+	w.routes = set
+	w.routeName = name
 	w.haveCfg = true
 	w.mu.Unlock()
 	lw.ResourceChanged(&xdsresource.ListenerResourceData{Resource: lu}, func() {})
@@ -379,6 +409,7 @@ type c51Op struct {
 	cluster string
 	idx     int
 	set     []string
+	routes  []c51Route // non-nil: delivered instead of one route per cluster of set
 }
 
 func c51Ops() []c51Op {
@@ -392,16 +423,42 @@ func c51Ops() []c51Op {
 		{name: "routes{B}", kind: "update", set: []string{"B"}},
 		{name: "routes{A,B}", kind: "update", set: []string{"A", "B"}},
 		{name: "routes{}", kind: "update", set: []string{}},
+		// the same cluster referenced more than once by one route configuration
+		{name: "routes{A,A2->A}", kind: "update", routes: []c51Route{{"/A/", []string{"A"}}, {"/A2/", []string{"A"}}}},
+		{name: "routes{A->[A,A],B}", kind: "update", routes: []c51Route{{"/A/", []string{"A", "A"}}, {"/B/", []string{"B"}}}},
 		{name: "advance(1m)", kind: "advance"},
 	}
 }
 
 const c51MaxInFlight = 3
 
+// c51FirstWRR replaces the random weighted picker (seam rinternal.NewWRR): it
+// always returns the first cluster added, so that a route listing a cluster
+// twice is deterministic. It is stateless, hence safe to install once for all
+// concurrently running histories.
+type c51FirstWRR struct{ first any }
+
+func (w *c51FirstWRR) Add(item any, _ int64) {
+	if w.first == nil {
+		w.first = item
+	}
+}
+func (w *c51FirstWRR) Next() any { return w.first }
+
+func c51InstallWRR() (restore func()) {
+	saved := rinternal.NewWRR
+	rinternal.NewWRR = func() wrr.WRR { return &c51FirstWRR{} }
+	return func() { rinternal.NewWRR = saved }
+}
+
 func (w *c51World) apply(op c51Op) (applicable bool) {
 	switch op.kind {
 	case "update":
-		w.deliver(op.set)
+		if op.routes != nil {
+			w.deliverRoutes(op.name, op.routes)
+		} else {
+			w.deliver(op.set)
+		}
 		w.client.pump()
 		w.obs = "route configuration update"
 	case "select":
@@ -490,7 +547,7 @@ func (w *c51World) quiescentState() string {
 	if !w.haveCfg {
 		sb.WriteString("routes=<none>")
 	} else {
-		fmt.Fprintf(&sb, "routes=%v", w.routes)
+		fmt.Fprintf(&sb, "routes=%s%v", w.routeName, w.routes)
 	}
 	var cur iresolver.ConfigSelector
 	if n := len(w.pushes); n > 0 {
@@ -629,9 +686,9 @@ func TestVerif_C51_XDSResolver(t *testing.T) {
 	const P = c51P
 	r := vk.Start(t, "c51_xdsresolver", "model_checking", P)
 	defer r.Finish()
-	r.Rule(P, "breadth-first over ALL event histories up to the depth bound, each applied to a fresh real xDS resolver (production Build, real dependency manager) inside a synctest bubble, run to quiescence after every event. Events: route configuration update to clusters {A} | {B} | {A,B} | {} (one prefix route /X/ per cluster, delivered as a Listener resource with inline routes; Cluster and Endpoints watches are answered), select an RPC on /A or /B through the config selector most recently pushed to the channel (at most 3 uncommitted RPCs), commit the i-th uncommitted RPC by calling its OnCommitted hook TWICE, advance time 1 minute. Checked at every service-config push and at every quiescent point against a ledger of uncommitted RPCs. A state = ledger + children of the latest pushed config + private clusterInfo.refCount values + per-RPC config-selector generation and interceptor liveness; distinct states are the non-trivial cases")
+	r.Rule(P, "breadth-first over ALL event histories up to the depth bound, each applied to a fresh real xDS resolver (production Build, real dependency manager) inside a synctest bubble, run to quiescence after every event. Events: route configuration update to clusters {A} | {B} | {A,B} | {} (one prefix route /X/ per cluster) | two routes /A/ and /A2/ both to cluster A | a route /A/ whose weighted clusters list A twice plus /B/ -> B (delivered as a Listener resource with inline routes; Cluster and Endpoints watches are answered), select an RPC on /A or /B through the config selector most recently pushed to the channel (at most 3 uncommitted RPCs), commit the i-th uncommitted RPC by calling its OnCommitted hook TWICE, advance time 1 minute. Checked at every service-config push and at every quiescent point against a ledger of uncommitted RPCs. A state = ledger + children of the latest pushed config + private clusterInfo.refCount values + per-RPC config-selector generation and interceptor liveness; distinct states are the non-trivial cases")
 	r.Assume(P, "events are serialized (one at a time, run to quiescence): the interleavings of SelectConfig, OnCommitted and updates inside the resolver are not explored by this leg; RPCs are selected through the config selector of the latest push (the channel swaps selectors before the resolver stops the old one)")
-	r.Assume(P, "scripted: xDS client (decoded Listener/Cluster/Endpoints resources delivered directly to the dependency manager's watchers; every cluster resolves) and the channel (recording ClientConn; the cluster_manager LB policy and the real channel's commit logic in stream.go are not running). Listener/route resource-not-found errors (erroring config selector, empty service config) and cluster specifier plugins are out of scope")
+	r.Assume(P, "scripted: xDS client (decoded Listener/Cluster/Endpoints resources delivered directly to the dependency manager's watchers; every cluster resolves) the weighted-cluster picker (seam rinternal.NewWRR: always the first listed cluster) and the channel (recording ClientConn; the cluster_manager LB policy and the real channel's commit logic in stream.go are not running). Listener/route resource-not-found errors (erroring config selector, empty service config) and cluster specifier plugins are out of scope")
 
 	contents, err := bootstrap.NewContentsForTesting(bootstrap.ConfigOptionsForTesting{
 		Servers: []byte(`[{"server_uri": "passthrough:///verif", "channel_creds": [{"type": "insecure"}]}]`),
@@ -646,6 +703,7 @@ func TestVerif_C51_XDSResolver(t *testing.T) {
 		r.EngineError("bootstrap config: %v", err)
 		return
 	}
+	defer c51InstallWRR()()
 	ops := c51Ops()
 	names := make([]string, len(ops))
 	for i, o := range ops {
